@@ -1,1 +1,12 @@
 import Ypv.Props.C16
+#print axioms Ypv.Cli.get_exit_zero_iff_matched
+#print axioms Ypv.Cli.get_lines_are_results
+#print axioms Ypv.Cli.get_json_for_containers
+#print axioms Ypv.Cli.get_args_decision
+#print axioms Ypv.Cli.get_stdin_eq_file
+#print axioms Ypv.Cli.diff_exit_zero_iff_clean
+#print axioms Ypv.Cli.diff_prints_report
+#print axioms Ypv.Cli.diff_exit_ignores_output_options
+#print axioms Ypv.Cli.diff_args_decision
+#print axioms Ypv.Cli.validate_exit_zero_iff_all_load
+#print axioms Ypv.Cli.validate_args_decision
